@@ -655,14 +655,14 @@ class Interp:
                 return NONE
             m_ = re.match(r'^(?:std::|core::)?(?:primitive::)?([iu](?:8|16|32|64|128|size))::(MAX|MIN|BITS)$', p) or \
                 re.match(r'^(?:std|core)::([iu](?:8|16|32|64|128|size))::(MAX|MIN|BITS)$', p) or \
-                re.match(r'^(?:std|core)::num::<impl ([iu](?:8|16|32|64|128|size))>::(MAX|MIN|BITS)$', p)
+                re.match(r'^(?:[a-z_0-9]+::)*num::<impl ([iu](?:8|16|32|64|128|size))>::(MAX|MIN|BITS)$', p)
             if m_:
                 w_, sg_ = _INT_TY[m_.group(1)]
                 return w_ if m_.group(2) == 'BITS' else ((1 << (w_ - 1)) - 1 if sg_ else (1 << w_) - 1) if m_.group(2) == 'MAX' else (-(1 << (w_ - 1)) if sg_ else 0)
-            mfa_ = re.match(r'^(?:[a-z_]+::)*(?:f64::|<impl f64>::|f64::<impl f64>::)(MIN_EXP|MAX_EXP|MAX|MIN|EPSILON|INFINITY|NEG_INFINITY|NAN|MIN_POSITIVE|MANTISSA_DIGITS|RADIX)$', p)
+            mfa_ = re.match(r'^(?:[a-z_]+::)*(?:f64::|<impl f64>::|f64::<impl f64>::)(MIN_EXP|MAX_EXP|MIN_10_EXP|MAX_10_EXP|DIGITS|MAX|MIN|EPSILON|INFINITY|NEG_INFINITY|NAN|MIN_POSITIVE|MANTISSA_DIGITS|RADIX)$', p)
             if mfa_:
                 import sys as _sys
-                return {'MIN_EXP': -1021, 'MAX_EXP': 1024, 'MAX': _sys.float_info.max, 'MIN': -_sys.float_info.max, 'EPSILON': _sys.float_info.epsilon, 'INFINITY': float('inf'),
+                return {'MIN_EXP': -1021, 'MAX_EXP': 1024, 'MIN_10_EXP': -307, 'MAX_10_EXP': 308, 'DIGITS': 15, 'MAX': _sys.float_info.max, 'MIN': -_sys.float_info.max, 'EPSILON': _sys.float_info.epsilon, 'INFINITY': float('inf'),
                         'NEG_INFINITY': float('-inf'), 'NAN': float('nan'), 'MIN_POSITIVE': _sys.float_info.min, 'MANTISSA_DIGITS': 53, 'RADIX': 2}[mfa_.group(1)]
             mf_ = re.match(r'^(?:std|core)::(f32|f64)::consts::([A-Z_0-9]+)$', p)
             if mf_:
@@ -1648,6 +1648,15 @@ class Interp:
                 if b_ == 0:
                     raise Panics('div_euclid by zero')
                 return (recv - recv % abs(b_)) // b_
+            if nm in ('is_odd', 'is_even') and not args:
+                return (recv % 2 == 1) if nm == 'is_odd' else (recv % 2 == 0)
+            if nm == 'is_one' and not args:
+                return recv == 1
+            if nm == 'gcd' and len(args) == 1:
+                import math as _m
+                return _m.gcd(recv, A())
+            if nm == 'unsigned_abs' and not args:
+                return abs(recv)
             if nm == 'is_negative' and not args:
                 return recv < 0
             if nm == 'is_positive' and not args:
